@@ -79,6 +79,10 @@ pub fn catalogue() -> Vec<Entry> {
         Vec<BTreeMap<u8, Vec<String>>>, BTreeMap<u8, Vec<Option<(u16, String)>>>, Option<Vec<Option<Vec<u8>>>>,
         Vec<HS<u8>>, HM<u8, HM<u8, u8>>, (Vec<u8>, [u8; 2], Option<(String, Vec<u16>)>), Vec<Vec<Vec<u8>>>,
         Vec<Result<u8, String>>, [Vec<(u8, Option<bool>)>; 2], VecDeque<Option<VecDeque<u8>>>,
+        // byte arrays nested two and three deep inside contiguous sequences (flattening fast paths)
+        Vec<[[u8; 2]; 2]>, [[[u8; 2]; 2]; 2], VecDeque<[[u8; 2]; 3]>, Vec<[[u8; 1]; 1]>, Box<[[[u8; 3]; 2]]>,
+        Vec<[[u16; 2]; 2]>, LinkedList<[[u8; 2]; 2]>, [[[u8; 1]; 3]; 2], Vec<[[[u8; 2]; 1]; 2]>, Vec<[i8; 3]>,
+        Vec<[[u8; 0]; 2]>, Option<Vec<[[u8; 3]; 3]>>, BTreeSet<[[u8; 2]; 2]>, (Vec<[[u8; 2]; 2]>, u8),
     );
     #[cfg(feature = "io_std")]
     {
@@ -123,7 +127,7 @@ pub fn zst_catalogue() -> Vec<Entry> {
 use crate::gen::Gen;
 use crate::obs::Sink;
 use crate::ops::Budget;
-use crate::schema_ops::{schema_ty, with_schema_pair, with_schema_perturbed};
+use crate::schema_ops::{schema_ty, with_schema_framing, with_schema_pair, with_schema_perturbed};
 
 pub type SRun = fn(&mut Gen, &Budget, &mut Sink);
 pub use crate::schema_ops::FullS;
@@ -193,6 +197,18 @@ macro_rules! pairs {
 
 macro_rules! pert {
     ($v:ident; $($t:ty),* $(,)?) => { $( $v.push(with_schema_perturbed::<$t> as PRun); )* };
+}
+
+macro_rules! framing {
+    ($v:ident; $($t:ty),* $(,)?) => { $( $v.push(with_schema_framing::<$t> as PRun); )* };
+}
+
+pub fn schema_framing() -> Vec<PRun> {
+    let mut v: Vec<PRun> = Vec::new();
+    framing!(v; u8, (), String, Vec<u8>, Vec<(u8, String)>, Option<u16>, Result<u8, String>, BTreeMap<u8, Vec<String>>,
+             [u16; 3], (u8, (u16, bool)), HashMap<String, u32>, core::ops::Range<u8>, Box<[u64]>, [u8; 0],
+             borsh::schema::BorshSchemaContainer);
+    v
 }
 
 pub fn schema_perturbed() -> Vec<PRun> {
